@@ -16,8 +16,10 @@ META = {
         "does not redo it) and the flag is set only after the loop. (b) confinement: every converter method call "
         "inside the three register functions and their nested hooks is made on the register function's own "
         "parameter (no rebinding, no shadowing, no other converter object); no module-level converter, cache "
-        "decorator or mutable registry exists in _hooks.py / converters.py; get_converter builds a fresh "
-        "cattrs.Converter() when given None and returns register_hooks(converter). (c) the only converter "
+        "decorator or mutable registry exists in _hooks.py / converters.py; get_converter, folded (E5) "
+        "with cattrs.Converter and register_hooks stubbed, builds a fresh Converter on every None call and returns "
+        "register_hooks of the very object it was given; register_hooks, folded, calls the resolver before the first "
+        "registration. (c) the only converter "
         "attributes used are structure / unstructure / register_* (no branch on detailed_validation or other "
         "configuration). Decides these conditions, not equality of results across converters."),
     "trusted_base": ["A6: attrs.resolve_types inserts __builtins__ into the globalns dict it is given",
